@@ -545,3 +545,119 @@ Proof.
     pose proof (parsex_fuel_mono_le _ (Nat.max (S (length toks)) (ca e + S (reqa e))) _ _ _ _ (Nat.le_max_r _ _) H1 ltac:(discriminate)) as M2.
     subst toks. rewrite M1 in M2. inversion M2; subst. rewrite Hok. reflexivity.
 Qed.
+
+(** * the parser accepts exactly the expressions with balanced parentheses *)
+Fixpoint tbaln (toks : list token) (d : nat) : bool :=
+  match toks with
+  | [] => Nat.eqb d 0
+  | TOpen :: tl => tbaln tl (S d)
+  | TClose :: tl => match d with O => false | S d' => tbaln tl d' end
+  | _ :: tl => tbaln tl d
+  end.
+(** rest after the (d+1)-th unmatched ')' *)
+Fixpoint close (toks : list token) (d : nat) : option (list token) :=
+  match toks with
+  | [] => None
+  | TOpen :: tl => close tl (S d)
+  | TClose :: tl => match d with O => Some tl | S d' => close tl d' end
+  | _ :: tl => close tl d
+  end.
+
+Lemma tbaln_flush acc rest n : tbaln (flush acc rest) n = tbaln rest n.
+Proof. unfold flush. destruct acc; reflexivity. Qed.
+
+Lemma balanced_lex : forall s acc d, balanced s (Z.of_nat d) = tbaln (lex_go s acc) d.
+Proof.
+  induction s as [|b s IH]; intros acc d.
+  - simpl. rewrite tbaln_flush. simpl. destruct d; reflexivity.
+  - simpl lex_go. destruct (delim_token b) as [t|] eqn:E.
+    + rewrite tbaln_flush.
+      destruct b; simpl in E; try discriminate; inversion E; subst; simpl.
+      * replace (Z.of_nat d + 1) with (Z.of_nat (S d)) by lia. apply IH.
+      * destruct d as [|d']; [reflexivity|].
+        destruct (Z.of_nat (S d') <=? 0) eqn:F; [apply Z.leb_le in F; exfalso; rewrite Nat2Z.inj_succ in F; pose proof (Nat2Z.is_nonneg d'); lia|].
+        replace (Z.of_nat (S d') - 1) with (Z.of_nat d') by lia. apply IH.
+      * apply IH.
+      * apply IH.
+    + destruct b; simpl in E; try discriminate; simpl; apply IH.
+Qed.
+
+Lemma close_succ : forall toks d, close toks (S d) = match close toks d with Some rest => close rest 0 | None => None end.
+Proof.
+  induction toks as [|t tl IH]; intros d; simpl; auto.
+  destruct t; auto. destruct d; auto.
+Qed.
+Lemma close_length : forall toks d rest, close toks d = Some rest -> (length rest < length toks)%nat.
+Proof.
+  induction toks as [|t tl IH]; intros d rest H; simpl in *; [discriminate|].
+  destruct t; try (apply IH in H; lia).
+  destruct d; [inversion H; subst; lia|apply IH in H; lia].
+Qed.
+Lemma close_none_unbalanced : forall toks d, close toks d = None -> tbaln toks (S d) = false.
+Proof.
+  induction toks as [|t tl IH]; intros d H; simpl in *; auto.
+  destruct t; auto. destruct d; [discriminate|auto].
+Qed.
+Lemma close_some_unbalanced : forall toks d rest, close toks d = Some rest -> tbaln toks d = false.
+Proof.
+  induction toks as [|t tl IH]; intros d rest H; simpl in *; [discriminate|].
+  destruct t; eauto. destruct d; eauto.
+Qed.
+Lemma close_some_tbaln : forall toks d rest, close toks d = Some rest -> tbaln toks (S d) = tbaln rest 0.
+Proof.
+  induction toks as [|t tl IH]; intros d rest H; simpl in *; [discriminate|].
+  destruct t; eauto. destruct d; [inversion H; reflexivity|eauto].
+Qed.
+
+Definition parsex_outcome (toks : list token) (r : pres (paths * bool * list token)) : Prop :=
+  match close toks 0 with
+  | Some rest => exists ps, r = POk (ps, true, rest)
+  | None => if tbaln toks 0 then exists ps, r = POk (ps, false, []) else r = PErr PBadRequest
+  end.
+
+Lemma parsex_characterised : forall f toks E split, (length toks < f)%nat ->
+  parsex_outcome toks (parsex f toks E split).
+Proof.
+  induction f as [|f IH]; intros toks E split Hl; [lia|].
+  destruct toks as [|t tl].
+  - unfold parsex_outcome. simpl. eauto.
+  - simpl in Hl. destruct t.
+    + (* '(' *)
+      rewrite parsex_open. unfold parsex_outcome. simpl close. simpl tbaln. rewrite close_succ.
+      pose proof (IH tl [] None ltac:(lia)) as N. unfold parsex_outcome in N.
+      destruct (close tl 0) as [rest1|] eqn:C1.
+      * destruct N as [ps1 ->]. simpl negb. cbv iota.
+        pose proof (close_length _ _ _ C1) as L1.
+        rewrite (close_some_tbaln _ _ _ C1).
+        destruct split as [sp|].
+        -- exact (IH rest1 E (Some (expand_paths sp ps1)) ltac:(lia)).
+        -- exact (IH rest1 (expand_paths E ps1) None ltac:(lia)).
+      * rewrite (close_none_unbalanced _ _ C1).
+        destruct (tbaln tl 0).
+        -- destruct N as [ps1 ->]. reflexivity.
+        -- rewrite N. reflexivity.
+    + exact (IH tl (finish E split) (Some []) ltac:(lia)).
+    + unfold parsex_outcome. simpl. eauto.
+    + exact (IH tl E split ltac:(lia)).
+    + destruct split as [sp|].
+      * exact (IH tl E (Some (add_segment sp s)) ltac:(lia)).
+      * exact (IH tl (add_segment E s) None ltac:(lia)).
+Qed.
+
+Theorem parse_ok_iff_balanced s : (exists ps, parse_path_expr s = POk ps) <-> balanced s 0 = true.
+Proof.
+  unfold parse_path_expr. change 0 with (Z.of_nat 0). rewrite (balanced_lex s [] 0). fold (lex s).
+  pose proof (parsex_characterised (S (length (lex s))) (lex s) [] None ltac:(lia)) as H.
+  unfold parsex_outcome in H.
+  destruct (close (lex s) 0) as [rest|] eqn:C.
+  - destruct H as [ps ->]. rewrite (close_some_unbalanced _ _ _ C). split; [intros [x Hx]; discriminate|discriminate].
+  - destruct (tbaln (lex s) 0).
+    + destruct H as [ps ->]. split; eauto.
+    + rewrite H. split; [intros [x Hx]; discriminate|discriminate].
+Qed.
+
+Corollary parse_unbalanced_is_error s : balanced s 0 = false -> parse_path_expr s = PErr PBadRequest.
+Proof.
+  intros Hb. destruct (parse_never_out_of_fuel s) as [H|[ps H]]; auto.
+  assert (balanced s 0 = true) by (apply parse_ok_iff_balanced; eauto). congruence.
+Qed.
